@@ -38,6 +38,22 @@ fn lib_worlds(n_subs: usize) -> Vec<World> {
   LibSrc::all().into_iter().map(|l| World { srcs: vec![SrcKind::Lib(l)], acts: (0..n_subs).map(Act::Sub).collect() }).collect()
 }
 
+fn is_hot_world(w: &World) -> bool {
+  // not Behavior/ReplaySubject: they emit synchronously at subscribe time
+  w.srcs.iter().all(|s| matches!(s, SrcKind::Hot | SrcKind::Subject))
+}
+
+/// ref_count() (every world) and replay() (hot sources only) as ordinary pipeline stages under one subscriber
+fn connectable_families(worlds: &[World], oracles: Vec<Oracle>) -> Vec<(Family, usize)> {
+  let single_sub = |w: &&World| w.acts.iter().filter(|a| matches!(a, Act::Sub(_))).count() == 1 && !w.acts.iter().any(|a| matches!(a, Act::Nest { .. }));
+  let all: Vec<World> = worlds.iter().filter(single_sub).cloned().collect();
+  let hot: Vec<World> = all.iter().filter(|w| is_hot_world(w)).cloned().collect();
+  vec![
+    (Family { name: "ref_count() as a pipeline stage (one subscriber), alone and with one operator below / above".into(), pipelines: connectable_pipelines(false), worlds: Arc::new(all), oracles: oracles.clone() }, 2),
+    (Family { name: "replay() as a pipeline stage over hot sources (one subscriber), alone and with one operator above".into(), pipelines: connectable_pipelines(true), worlds: Arc::new(hot), oracles }, 2),
+  ]
+}
+
 fn run_families(prop: &str, r: &mut Report, fams: Vec<(Family, usize)>) {
   let stop = AtomicBool::new(false);
   let mut per = vec![];
@@ -95,6 +111,7 @@ pub fn check(prop: &str, tier: &str) -> Option<Report> {
         }
         fams.push((Family { name: "depth 1, bursts of 40 and 70 items".into(), pipelines: depth1(&last_pos), worlds: Arc::new(wb), oracles: vec![Oracle::Functional] }, 1));
       }
+      fams.extend(connectable_families(&w2, vec![Oracle::Functional]));
       run_families(prop, &mut r, fams);
     }
     "C01" => {
@@ -116,6 +133,7 @@ pub fn check(prop: &str, tier: &str) -> Option<Report> {
       with_src.extend(depth1(&last_pos));
       fams.push((Family { name: "creation functions, alone and below every operator".into(), pipelines: with_src, worlds: Arc::new(lib_worlds(1)), oracles: vec![Oracle::Contract] }, 1));
       fams.extend(multi_families(th, true, vec![Oracle::Contract]));
+      fams.extend(connectable_families(&w_small, vec![Oracle::Contract]));
       if th {
         fams.push((Family { name: "depth 3 (reduced catalogue)".into(), pipelines: depth3(&reduced_ops()), worlds: w_small, oracles: vec![Oracle::Contract] }, 3));
       }
@@ -341,6 +359,7 @@ pub fn check(prop: &str, tier: &str) -> Option<Report> {
       fams.push((Family { name: "depth 2, self-ending operator above".into(), pipelines: depth2(&singles_noend, &d1_end), worlds: w.clone(), oracles: oracle.clone() }, 2));
       fams.push((Family { name: "depth 2, other".into(), pipelines: depth2(&single, &d1_other), worlds: w_noend.clone(), oracles: oracle.clone() }, 2));
       fams.push((Family { name: "depth 2, self-ending operator below".into(), pipelines: depth2(&d1_end, &singles_noend), worlds: w_noend.clone(), oracles: oracle.clone() }, 2));
+      fams.extend(connectable_families(&w_noend, oracle.clone()));
       // combining operators: unsubscribe at every position of every interleaving (2 hot sources)
       let mf = multi_families(false, false, oracle.clone());
       for (f, d) in mf {
